@@ -269,11 +269,17 @@ theorem get_ite_goSet_ne (c : Prop) [Decidable c] (h : HMap) {n k : Bytes} (v : 
   · exact get_goSet_ne h v hne
   · rfl
 
-/-- X-Forwarded-For: the first client value, a comma, the client address -/
+theorem ck_xff : canonicalKey (bs "X-Forwarded-For") = bs "X-Forwarded-For" := by decide +kernel
+theorem ck_via : canonicalKey (bs "Via") = bs "Via" := by decide +kernel
+
+/-- the client's X-Forwarded-For chain: all values, combined with ", " -/
+def xffChainOf (h : HMap) : Bytes := joinWith (bs ", ") (hget h (bs "X-Forwarded-For"))
+
+/-- X-Forwarded-For: the whole client chain, a comma, the client address -/
 theorem hget_forwarded_xff (ctx : Ctx) (g : GoReq) :
     hget (forwarded ctx g) (canonicalKey (bs "X-Forwarded-For")) =
-      [if (goGet g.header (bs "X-Forwarded-For")).isEmpty then ctx.clientIP
-       else goGet g.header (bs "X-Forwarded-For") ++ bs ", " ++ ctx.clientIP] := by
+      [if (xffChainOf g.header).isEmpty then ctx.clientIP
+       else xffChainOf g.header ++ bs ", " ++ ctx.clientIP] := by
   unfold forwarded
   extract_lets h ha hb hc v xff
   rw [hget_goSet_self]
@@ -283,7 +289,10 @@ theorem hget_forwarded_xff (ctx : Ctx) (g : GoReq) :
     get_ite_goSet_ne _ _ _ ne_xff_host
   have e3 : HMap.get hc (canonicalKey (bs "X-Forwarded-For")) = HMap.get hb _ :=
     get_ite_goSet_ne _ _ _ ne_xff_url
-  have : v = goGet g.header (bs "X-Forwarded-For") := goGet_congr (e3.trans (e2.trans e1))
+  have : v = xffChainOf g.header := by
+    have e := hget_congr (e3.trans (e2.trans e1))
+    rw [ck_xff] at e
+    simp only [v, xffChainOf, e, h]
   simp only [xff, this]
 
 theorem hget_ite_goSet_self (h : HMap) (n v : Bytes) :
@@ -350,7 +359,7 @@ def viaValue (cfg : Cfg) (minor : Nat) (via : Bytes) : Bytes :=
   (if via.isEmpty then [] else via ++ bs ", ") ++ protoText minor ++ [32] ++ cfg.tag
 
 theorem viaStep_some {cfg : Cfg} {minor : Nat} {h h4 : HMap} (hv : viaStep cfg minor h = some h4) :
-    h4 = goSet h (bs "Via") (viaValue cfg minor (goGet h (bs "Via"))) := by
+    h4 = goSet h (bs "Via") (viaValue cfg minor (viaChainOf h)) := by
   unfold viaStep at hv
   extract_lets via at hv
   split at hv
